@@ -373,8 +373,13 @@ func c05Det(p *core.Prog, an *effects.Analysis, t c05Type) (bool, string, []*ssa
 	if s == nil {
 		return false, "no effect summary for Marshal", nil
 	}
-	if s.WritesThrough(0) {
-		why = append(why, "Marshal may write through its receiver: "+siteStr(p, s.Writes[0][0]))
+	for _, w := range s.Writes[0] {
+		// a member ExtendedReport fills in its blocks' XRHeader fields (documented; the sizes read no field contents: C05-XR)
+		if t.name == "CompoundPacket" && xrHeaderOnlySite(an, w, map[string]bool{"XRHeader.BlockType": true, "XRHeader.TypeSpecific": true, "XRHeader.BlockLength": true}, 0) {
+			continue
+		}
+		why = append(why, "Marshal may write through its receiver: "+siteStr(p, w))
+		break
 	}
 	if s.WritesThrough(s.GlobalRoot()) {
 		why = append(why, "Marshal may write package state")
